@@ -932,6 +932,27 @@ func childOfDone(r *sup.CaseResult, rng *rand.Rand, g int, isolated bool) {
 		}
 		return
 	}
+	// children of the done scope that outlive it: created now (the done parent does not register
+	// them, so its Close does not wait for them), signalled and closed after the parent's Close
+	var late []app.Scope
+	func() {
+		defer func() {
+			if x := recover(); x != nil {
+				r.Violate("child-of-done-panic", fmt.Sprintf("creating a child after the parent's end panicked: %v", x), wit)
+			}
+		}()
+		for k := 0; k < 4; k++ {
+			params := scope.ChildParams{}
+			if k%2 == 1 {
+				params.ContextScope = contextscope.NewIsolated(parent.BaseContextScope())
+			}
+			c := scope.NewChild(parent, params)
+			if k == 3 {
+				c = scope.NewChild(c, scope.ChildParams{}) // a grandchild through a child that is never closed before it
+			}
+			late = append(late, c)
+		}
+	}()
 	func() {
 		defer func() {
 			if x := recover(); x != nil {
@@ -940,6 +961,28 @@ func childOfDone(r *sup.CaseResult, rng *rand.Rand, g int, isolated bool) {
 		}()
 		parent.Close()
 	}()
+	for k, c := range late {
+		how := (k + int(atomic.LoadInt64(&created))) % 4
+		func() {
+			defer func() {
+				if x := recover(); x != nil {
+					r.Violate("child-of-done-panic", fmt.Sprintf("a child (%d: %s) created after the parent's %s and used after the parent's Close: %s then Close panicked: %v",
+						k, []string{"shared", "isolated", "shared", "grandchild"}[k], []string{"Kill", "Stop", "AppendError"}[ender], []string{"Kill", "Stop", "AppendError", "nothing"}[how], x), wit)
+				}
+			}()
+			switch how {
+			case 0:
+				c.Kill()
+			case 1:
+				c.Stop()
+			case 2:
+				c.AppendError(&uerr{id: atomic.AddInt64(&errCtr, 1)})
+			}
+			_ = c.IsDone()
+			c.Close()
+		}()
+		r.AddObs("children_of_done_scope_closed_after_the_parents_close", 1)
+	}
 	r.AddObs("child_trials", 1)
 	r.AddObs("children_created", atomic.LoadInt64(&created))
 	r.AddObs("children_created_after_parent_done", atomic.LoadInt64(&afterDone))
@@ -1090,7 +1133,7 @@ func main() {
 		Race:  true,
 		Rule: "hammer: 2…64 goroutines released together issue PRNG-chosen AppendError(unique)/Kill/Stop/IsDone/Err/Errors (the returned list is extended and wiped by the caller)/Done on one plain context, isolated context, scope, shared child or isolated child (GOMAXPROCS 1/2/4/16) – no panic, every appended error retained exactly once (+ one context.Canceled per Kill), Err/Wait/Close report an error iff something was appended, Done closed, shared child fails its parent, isolated child does not; half of the scopes carry a rollback listener that fails during Close – Close reports that error too; for isolated subjects in half of the trials another goroutine ends the parent (Kill/AppendError/Stop) meanwhile: judged once the watcher goroutine has returned – still every appended error retained, at most one extra context.Canceled, the parent holds exactly its own errors; " +
 			"observe: the scope is ended by 1…3 concurrent Kill/AppendError calls only, 1…3 observers react to the done signal (tight IsDone loop, <-Done(), IsDone with yields) and read Err()/Errors(); scopes also with a task that leaves on Done() and a Wait() released by it – an error must be there; " +
-			"child: goroutines create and close children of a scope while another goroutine ends it, then after its end – no panic, parent.Wait() returns, parent closes; cmd: terminal commands (termexec.RunCommand through the real terminal service) issued on an IO context whose scope is being killed. The race detector decides for contextscope/*, scope/scope.go, scope/child.go. distinct = distinct (subject, goroutine count, plan)",
+			"child: goroutines create and close children of a scope while another goroutine ends it, then after its end – no panic, parent.Wait() returns, parent closes; children (shared, isolated, a grandchild) created after the end are kept over the parent's Close and signalled and closed afterwards; cmd: terminal commands (termexec.RunCommand through the real terminal service) issued on an IO context whose scope is being killed. The race detector decides for contextscope/*, scope/scope.go, scope/child.go. distinct = distinct (subject, goroutine count, plan)",
 		Assumptions: []string{
 			"'the done signal fires exactly once' is observable only as the absence of a close-of-closed-channel panic",
 			"in a trial whose only ending calls are Kill/AppendError the done signal is caused by a call that carries an error, so an observation made after the signal (accessors, or Wait released by it) must report an error; with Stop calls in the mix a done scope without errors is legitimate and nothing is asserted",
